@@ -182,7 +182,8 @@ def loadLive (kv : List (String × String)) : IO (Except String LiveCase) := do
 def cfgTags (c : Cfg) : List String :=
   (if c.crash.isSome then ["cfg.crash"] else ["cfg.nocrash"]) ++ (if c.limit.isSome then ["cfg.limit"] else []) ++
   (if c.sanitize then ["cfg.sanitize"] else []) ++ (if c.principal.isSome then ["cfg.skip"] else []) ++
-  (if !c.app.isEmpty then ["cfg.app"] else []) ++ (if !c.umaps.isEmpty then ["cfg.umap"] else [])
+  (if !c.app.isEmpty then ["cfg.app"] else []) ++ (if !c.umaps.isEmpty then ["cfg.umap"] else []) ++
+  (if c.reused > 0 then ["cfg.reused"] else [])
 
 /-- C05 on a real dump -/
 def runLive05 (kv : List (String × String)) : IO Res := do
@@ -282,6 +283,11 @@ def runLive04 (kv : List (String × String)) : IO Res := do
     let crashThread := lc.cfg.crash.isSome && exp.tid == lc.cfg.blamed
     if crashThread then continue
     let some ctx := lc.img.bytes t.ctxRva t.ctxSize | return .propfail s!"context of thread {exp.tid} unreadable" tags
+    if exp.slow then
+      -- a thread that is slow to stop (waiting for a vfork child): it exists throughout and can be attached to, so
+      -- it is listed (once: checked above) with a context; nothing is known about its registers
+      tags := "slow.listed" :: tags
+      continue
     if exp.spin then
       -- one counter, three copies: register r12, stack slot [rsp+8], memory word (app memory)
       let c1 := fieldAt ctx OFF.r12 8
@@ -323,6 +329,14 @@ def runLive04 (kv : List (String × String)) : IO Res := do
     if st.take 10 != ext80 false (2001 + 2 * exp.idx) 1 then return .propfail s!"thread {exp.tid}: ST0 differs" tags
     if (st.drop 16).take 10 != ext80 true (13 + 4 * exp.idx) 2 then return .propfail s!"thread {exp.tid}: ST1 differs" tags
     tags := "thread.checked" :: tags
+  -- a thread that was attached to and then dropped from the list must still be let go
+  if get kv "eintr" == some "1" then
+    tags := "dumper.signalled" :: tags
+    for st in splitList ((get kv "states").getD "-") do
+      match st.splitOn ":" with
+      | [tid, _, tracer] =>
+        if tracer != "0" then return .propfail s!"thread {tid} is still traced (TracerPid {tracer}) after the request" tags
+      | _ => pure ()
   -- every thread that was omitted because it vanished is reported as a soft error of the suspend step
   match get kv "tree" with
   | some tree =>
